@@ -183,6 +183,9 @@ CORPUS = [
     base_case(w=8, h=8, ccell=[1, 1], cscale=0.1, gscale=0.1, scale=0.0, rows=255, amc=255, amr=256, cmc=24,
               dcell=[10, 20], term={"kind": "W", "lines": 60, "cols": 200, "xpx": 1800, "ypx": 0}),
     base_case(w=256, h=256, ccell=[9, 18], cscale=0.1, cols=14),
+    # both dimensions given explicitly (kept as they are, whatever the limits), through every route, beyond 256
+    base_case(via="upload", cols=3, rows=257), base_case(via="build", cols=10, rows=300), base_case(via="upload", cols=400, rows=1000, w=50, h=50),
+    base_case(via="build", cols=257, rows=2), base_case(via="upload", cols=256, rows=256), base_case(cols=300, rows=300),
 ]
 
 
@@ -604,6 +607,11 @@ def evaluate(ctx, model, cases, cov, stats):
         # ---- correspondence
         if "build" in r and r["build"] != opt:
             ctx.corr_breaks.append({"what": f"{c['via']}: sizes of the image instance / c= r= of the transmit command differ from get_optimal_cols_and_rows", "case": c, "impl": [r["build"], opt]})
+            # the box the user GETS (instance, stored description, c=/r= on the wire) is the one the statement speaks about
+            if isinstance(opt, list) and isinstance(r["build"], list):
+                ctx.violations.append({"signature": {"class": "box-of-the-request-differs-from-the-computed-box", "via": c["via"]},
+                                       "what": f"{'upload()' if c['via'] == 'upload' else 'build_image_instance()'} of a {c['w']}x{c['h']} image with cols={c['cols']} rows={c['rows']} gives the box {r['build']}; "
+                                               f"get_optimal_cols_and_rows with the same arguments gives {opt}", "case": c})
         if "build_file" in r and r["build_file"] != opt:
             # the box of an image FILE is the box of the image the file holds now (opt is judged by the oracle below)
             ctx.violations.append({"signature": {"class": "image-file-box-differs-from-box-of-its-current-size", "dims": dims_class(c, r["max"]) if isinstance(r["max"], list) else "?"},
